@@ -232,6 +232,7 @@ func (e *Exec) spawn(parent *Thread, fn Value, args []Value) {
 		if !e.pushCall(th, fn, args, nil) {
 			if th.top == nil {
 				th.done = true
+				e.progress()
 			}
 		}
 	}
@@ -259,6 +260,7 @@ func (e *Exec) runThread(th *Thread) {
 	e.cur = th
 	e.lastRun = th
 	if th.blocked {
+		e.progress()
 		th.blocked = false
 		th.wake = nil
 		if th.onWake != nil {
@@ -295,6 +297,7 @@ func (e *Exec) runThread(th *Thread) {
 			}
 			if th.top == nil {
 				th.done = true
+				e.progress()
 				return
 			}
 			e.stepInstr(th)
@@ -390,6 +393,7 @@ func (e *Exec) advanceTime() bool {
 	t := live[i]
 	t.cancelled = true
 	e.now = t.when
+	e.progress()
 	if e.opts.Trace {
 		e.trace = append(e.trace, fmt.Sprintf("timer %s fires", t.what))
 	}
